@@ -40,11 +40,79 @@ def no_scratch_dependence(rep, what, sm, names):
                key="C20.euler|scratch|%s|%s|%s" % (what, n, sorted(set(b.split(" contains ")[1] for b in bad))[:2]), nontrivial=False)
 
 
+def generators_keep_no_partial_memo(S, rep):
+    """a time-step kernel is built from generator calls (flux, boundary reset, sums ...): each must return the kernel for the
+    arguments it is GIVEN. A generator that memoises its result in a module-level container is right only if the memo key
+    holds every parameter the result depends on; one keyed on fewer (precision and thread count but not the ring width) hands
+    a kernel built for other arguments to the next caller, so what a time step does depends on what was generated before it."""
+    import ast, os
+    base = os.path.join(S.repo, "sopht", "numeric")
+    n_gen, n_memo = 0, 0
+    for root, _, files in os.walk(base):
+        for f in sorted(files):
+            if not f.endswith(".py"):
+                continue
+            path = os.path.join(root, f)
+            tree = ast.parse(open(path).read())
+            containers = set()
+            for st in tree.body:
+                tgt = st.targets[0] if isinstance(st, ast.Assign) and len(st.targets) == 1 else (st.target if isinstance(st, ast.AnnAssign) else None)
+                val = getattr(st, "value", None)
+                if isinstance(tgt, ast.Name) and isinstance(val, (ast.Dict, ast.List, ast.Set)) or \
+                        (isinstance(tgt, ast.Name) and isinstance(val, ast.Call) and isinstance(val.func, ast.Name) and val.func.id in ("dict", "list", "set", "OrderedDict", "defaultdict")):
+                    containers.add(tgt.id)
+            for fn in [n for n in tree.body if isinstance(n, ast.FunctionDef) and n.name.startswith("gen")]:
+                n_gen += 1
+                if not containers:
+                    continue
+                params = [a.arg for a in fn.args.posonlyargs + fn.args.args + fn.args.kwonlyargs]
+                own = [n for n in ast.walk(fn) if isinstance(n, ast.FunctionDef) and n is not fn]
+                inner = {id(x) for o in own for x in ast.walk(o)}
+                # parameters the generated kernel depends on: read anywhere in the generator (its closures included)
+                used = {n.id for n in ast.walk(fn) if isinstance(n, ast.Name) and isinstance(n.ctx, ast.Load) and n.id in params}
+                keys = []
+                for n in ast.walk(fn):
+                    if id(n) in inner:
+                        continue
+                    k = None
+                    if isinstance(n, ast.Subscript) and isinstance(n.value, ast.Name) and n.value.id in containers:
+                        k = n.slice
+                    elif isinstance(n, ast.Compare) and len(n.ops) == 1 and isinstance(n.ops[0], (ast.In, ast.NotIn)) \
+                            and isinstance(n.comparators[0], ast.Name) and n.comparators[0].id in containers:
+                        k = n.left
+                    elif isinstance(n, ast.Call) and isinstance(n.func, ast.Attribute) and isinstance(n.func.value, ast.Name) \
+                            and n.func.value.id in containers and n.func.attr in ("get", "setdefault", "pop") and n.args:
+                        k = n.args[0]
+                    if k is not None:
+                        keys.append(k)
+                if not keys:
+                    continue
+                n_memo += 1
+                names = set()
+                for k in keys:
+                    for x in ast.walk(k):
+                        if isinstance(x, ast.Name):
+                            names.add(x.id)
+                # a key held in a local: the names of the expression it was assigned from
+                for st in ast.walk(fn):
+                    if isinstance(st, ast.Assign) and len(st.targets) == 1 and isinstance(st.targets[0], ast.Name) and st.targets[0].id in names:
+                        names |= {x.id for x in ast.walk(st.value) if isinstance(x, ast.Name)}
+                missing = sorted(q for q in used if q not in names)
+                rep.ob("C20.memo", "%s memoises on every parameter it uses" % fn.name, not missing,
+                       "%s keeps its result in a module-level container keyed without %s: a kernel generated for one value is returned for another" % (fn.name, ", ".join(missing))
+                       if missing else "memo key holds %s" % sorted(used), key="C20.memo|%s|%s" % (fn.name, missing), nontrivial=False)
+    rep.note("generator_functions", n_gen)
+    rep.note("memoising_generators", n_memo)
+    if n_gen < 40:
+        raise Unsupported("expected the gen_* kernel generators under sopht/numeric, found %d" % n_gen)
+
+
 def run(S, tier, rep):
     rep.rule_text = ("Euler kernels: resolved summary == field + step * (the library's own flux kernel applied to the field) with the step "
                      "parameter unscaled; SSP-RK3: summary == (I + A + A^2/2 + A^3/6) omega where A is the operator extracted from the "
                      "Euler kernel for the same step parameter (composition of extracted operators, exact)")
     rep.explanation = "dataflow through the wrappers is resolved by the symbolic store; A is linear in omega for frozen velocity"
+    generators_keep_no_partial_memo(S, rep)
     rep.trusted_base = ["A1", "A2", "A7"]
     # ---- Euler forward kernels: field + step * flux(field) with the library's flux kernel
     for dim in (2, 3):
